@@ -775,6 +775,15 @@ func init() {
 		phase()
 		g2 := settleGoroutines()
 		fd1 := fdCount()
+		if mode != "sessions-cut" {
+			// descriptors are given back by goroutines that run after the connections' owners have returned (close propagates through
+			// four hops): what is still open at the first look is looked at again for up to three seconds - a leak stays, a late close goes
+			for i := 0; i < 30 && fd1 > fd0+4; i++ {
+				time.Sleep(100 * time.Millisecond)
+				g2 = settleGoroutines()
+				fd1 = fdCount()
+			}
+		}
 		if mode == "sessions-cut" {
 			// an end that sees its carrier end with an orderly end-of-stream leaves the session to the multiplexer's keep-alive, which gives
 			// up at its second 30 s tick without data: "reclaimed" is judged once that time has passed (the wait, up to 75 s, ends as soon
